@@ -594,6 +594,20 @@ def rule_R13(text, args, fired):
     if n: fired.append('R13x%d' % n)
     return text
 
+def rule_R23(text, args, fired):
+    """Path::new(x).exists() -> v_path_exists_any(x) for a plain identifier x (std::path has no Verus spec; the prelude
+    function returns path_exists(<text of x>)).  Automatic, so a renamed binding does not lose the site."""
+    def f(toks, i, src):
+        t = toks[i]
+        if t.text == 'Path' and [x.text for x in toks[i:i+4]] == ['Path', '::', 'new', '('] and i + 9 < len(toks) \
+           and toks[i+4].kind == 'id' and [x.text for x in toks[i+5:i+10]] == [')', '.', 'exists', '(', ')'] \
+           and (i == 0 or toks[i-1].text != '::'):
+            return (t.start, toks[i+9].end, 'v_path_exists_any(%s)' % toks[i+4].text, i + 10)
+        return None
+    text, n = _sub_tokens(text, f)
+    if n: fired.append('R23x%d' % n)
+    return text
+
 def rule_txt(text, args, fired):
     """explicit single-site textual rewrite: args = [rule-id, src, dst]; src must occur exactly once
     (token-wise) and the pair must match the schema of the named rule."""
@@ -642,7 +656,7 @@ def rule_R17lit(text, args, fired):
     if n: fired.append('R17litx%d' % n)
     return text
 
-AUTO_RULES = [('R13', rule_R13), ('R1', rule_R1), ('R2', rule_R2), ('R3', rule_R3), ('R6', rule_R6), ('R7', rule_R7), ('R12', rule_R12)]
+AUTO_RULES = [('R23', rule_R23), ('R13', rule_R13), ('R1', rule_R1), ('R2', rule_R2), ('R3', rule_R3), ('R6', rule_R6), ('R7', rule_R7), ('R12', rule_R12)]
 ARG_RULES = {'R5all': rule_R5all, 'R20': rule_R20, 'R21': rule_R21, 'R4': rule_R4, 'R5': rule_R5, 'R5i': rule_R5i, 'R10': rule_R10, 'R15': rule_R15, 'A6': rule_A6, 'R8': rule_R8, 'R8s': rule_R8s, 'R8e': rule_R8e}
 
 # ---------------------------------------------------------------- function assembly
